@@ -15,6 +15,7 @@ import (
 )
 
 type printerState = hooks.PrinterState
+type hooksPrinter = hooks.Printer
 
 type RunResult struct {
 	Viol      []Violation
